@@ -118,6 +118,10 @@ where
             parts.push("true");
             assert!(parts.len() > 1);
 
+            // Subscripted flags (key=value pairs were handled by normalize)
+            let key = desubscript(parts[0]);
+            parts[0] = &key;
+
             // If the first arg is a key-without-value, it is the name of the operator
             if params.is_empty() && parts.len() == 2 {
                 params.insert(String::from("_name"), String::from(parts[0]));
@@ -193,6 +197,17 @@ where
             .unwrap_or(&"".to_string())
             .to_string()
     }
+}
+
+// Turn a trailing utf-8 subscript digit into its `_digit` spelling: x₀ -> x_0
+fn desubscript(key: &str) -> String {
+    const SUBSCRIPTS: [char; 10] = ['₀', '₁', '₂', '₃', '₄', '₅', '₆', '₇', '₈', '₉'];
+    if let Some(last) = key.chars().last() {
+        if let Some(digit) = SUBSCRIPTS.iter().position(|c| *c == last) {
+            return format!("{}_{}", key.trim_end_matches(last), digit);
+        }
+    }
+    key.to_string()
 }
 
 /// Translate a PROJ string into Rust Geodesy format. Since PROJ is syntactically
